@@ -147,6 +147,23 @@ type GenCfg struct {
 	WideProb               int  // 1/WideProb chance of a wide element (35..80 kids)
 	SeqMode                bool // C04 domain: text alone or before children; comments/directives/PIs; xmlns attrs
 	NoText                 bool
+	// AutoNames / AutoTexts: literals of the tree under test (see mon/autodict.go); one pick in AutoEvery comes from them.
+	AutoNames, AutoTexts []string
+	AutoEvery            int
+}
+
+func (g GenCfg) name(r *rand.Rand) string {
+	if len(g.AutoNames) > 0 && g.AutoEvery > 0 && r.Intn(g.AutoEvery) == 0 {
+		return g.AutoNames[r.Intn(len(g.AutoNames))]
+	}
+	return g.pick(r, g.Names)
+}
+
+func (g GenCfg) text(r *rand.Rand) string {
+	if len(g.AutoTexts) > 0 && g.AutoEvery > 0 && r.Intn(g.AutoEvery) == 0 {
+		return g.AutoTexts[r.Intn(len(g.AutoTexts))]
+	}
+	return g.pick(r, g.Texts)
 }
 
 func (g GenCfg) pick(r *rand.Rand, l []string) string { return l[r.Intn(len(l))] }
@@ -156,14 +173,14 @@ func foldKey(s string) string {
 }
 
 func (g GenCfg) Gen(r *rand.Rand, depth int) *Node {
-	n := &Node{Prefix: g.pick(r, g.Prefixes), Local: g.pick(r, g.Names)}
+	n := &Node{Prefix: g.pick(r, g.Prefixes), Local: g.name(r)}
 	na := 0
 	if g.MaxAttrs > 0 {
 		na = r.Intn(g.MaxAttrs + 1)
 	}
 	seen := map[string]bool{}
 	for i := 0; i < na; i++ {
-		a := Attr{Prefix: g.pick(r, g.Prefixes), Local: g.pick(r, g.Names), Val: g.pick(r, g.Texts)}
+		a := Attr{Prefix: g.pick(r, g.Prefixes), Local: g.name(r), Val: g.text(r)}
 		k := foldKey(a.Local)
 		if g.SeqMode {
 			k = QN(a.Prefix, a.Local)
@@ -205,7 +222,7 @@ func (g GenCfg) Gen(r *rand.Rand, depth int) *Node {
 	}
 	text := ""
 	if !g.NoText {
-		text = g.pick(r, g.Texts)
+		text = g.text(r)
 	}
 	pos := r.Intn(len(kids) + 1)
 	if g.SeqMode {
